@@ -452,6 +452,8 @@ def analyse(prop, tier, seed, hexe, mexe, agg, crashes, timings, do_shrink=True)
                   "dump s<N> | collect a<N> debt <x>|mark <x>|finmark|cycle <x>|fincycle|step <x> | alloc a<N> <n> <keep> | clearjunk a<N> | droparena a<N> | "
                   "weaknew a<N> <payload id> (object reachable only through a GcWeak in the root) | stashweak s<N> <payload id> h<N> (upgrade that "
                   "weak pointer and stash the result) | weakdrop a<N> <payload id> | park s<N> | unpark s<N> | "
+                  "stashleaf s<N> <leaf|static|rc|zst> <payload id> h<N> (stash a fresh LEAF payload, NEEDS_TRACE == false) | "
+                  "stashfin s<N> <node|leaf|static|rc|zst> <payload id> h<N> (finish_marking, then allocate + stash inside MarkedArena::finalize) | "
                   "clonefrom h<dst> h<src> (dst.clone_from(&src); for the model: drop dst, then clone src as dst) | end arenas-first|handles-first",
                   f"replay: {hexe} replay <this file>     (M lines = monitors; O/A lines = model op / implementation answer)",
                   f"   or : python3 {os.path.join(ROOT, 'lib', 'eng_dynroots.py')} replay {prop} <this file>"]
@@ -483,6 +485,14 @@ def analyse(prop, tier, seed, hexe, mexe, agg, crashes, timings, do_shrink=True)
         rel, eq, ph = (v.split("|") + ["-", "-"])[:3]
         cf[f"{rel}|{eq}"] += n
         cf_phase[f"{rel}|{eq}|{ph}"] += n
+    # leaf payloads (NEEDS_TRACE == false) adopted by a black set while marking (incl. inside finalize), per class
+    leaf_cells = collections.Counter()
+    for v, n in agg.cells.items():
+        w = v.split("|")
+        op = w[0]
+        if (op.startswith("stash-leaf-") or (op.startswith("stash-fin-") and not op.endswith("-node"))) \
+                and w[1] in ("marking", "marked", "finalize") and "set=B" in w and "target=W" in w and w[-1] == "stashed":
+            leaf_cells[f"{op.rsplit('-', 1)[1]}|{w[1]}"] += n
     directed = sum(n for v, n in agg.cells.items()
                    if v.startswith("stash-weak|mark") and "|set=B|target=w|first=1|stashed" in v)
     summary = {f"dynroots_{prop}": dict(
@@ -494,6 +504,8 @@ def analyse(prop, tier, seed, hexe, mexe, agg, crashes, timings, do_shrink=True)
         stashes=agg.stash, slot_reuses=agg.reuse, collections_with_live_handles=agg.coll,
         coverage_opkind_setstate_phase=table,
         clonefrom_cells=dict(sorted(cf.items())), clonefrom_cells_by_phase=dict(sorted(cf_phase.items())),
+        black_set_adopts_white_leaf_while_marking=sum(leaf_cells.values()),
+        black_set_adopts_white_leaf_while_marking_by_class_and_phase=dict(sorted(leaf_cells.items())),
         stash_colour_cells=cells, black_set_adopts_white_weak_first_stash_of_marking=directed,
         timings_s=timings)}
     return dict(problems=problems, evaluations=n_cases, distinct_nontrivial=len(agg.distinct), rule=RULE, samples=samples,
